@@ -1,10 +1,146 @@
 import Driver.Common
-/-! C17 driver (stub: answers bad-op until the property's model is wired in). -/
-open Driver
+import Sourmash.Model.HLL
+import Sourmash.Spec.HLL
+/-! C17 driver: HyperLogLog registers / merge / save-load.  Model column = `Model/HLL.lean`
+(the thing the theorems of `Theorems/C17.lean` are about); spec column = `Spec/HLL.lean`
+evaluated on the *set* of hashes each slot has received (sorted, so independent of the order the
+case inserted them in). -/
+open Driver Hll
 
-def stepC17 (s : Unit) (ws : List String) : Unit × Resp :=
+/-- what the specification knows about a slot: the parameters it was created with and every hash
+    it has received (directly, by merge, or through a save/load) -/
+structure SpecSlot where
+  p : Nat
+  k : Nat
+  hs : List Nat
+
+structure St where
+  m : Array (Option H) := Array.replicate 8 none
+  s : Array (Option SpecSlot) := Array.replicate 8 none
+
+def rleNats (xs : List Nat) : String :=
+  let flush (out : String) (v n : Nat) : String :=
+    let out := if out.isEmpty then out else out.push ','
+    if n == 1 then out ++ toString v else out ++ toString v ++ "*" ++ toString n
+  let rec go (xs : List Nat) (v n : Nat) (out : String) : String :=
+    match xs with
+    | [] => flush out v n
+    | x :: t => if x == v then go t v (n + 1) out else go t x 1 (flush out v n)
+  match xs with
+  | [] => "-"
+  | x :: t => go t x 1 ""
+
+def showH (h : H) : String :=
+  s!"p={h.p} q={h.q} k={h.ksize} n={h.regs.size} regs={rleNats (h.regs.toList.map (·.toNat))}"
+
+def sortedSet (l : List Nat) : List Nat :=
+  let a := l.toArray.qsort (· < ·)
+  (a.foldl (fun (acc : List Nat) x => match acc with
+    | y :: _ => if x == y then acc else x :: acc
+    | [] => [x]) []).reverse
+
+def showSpec (s : SpecSlot) : String :=
+  s!"p={s.p} q={64 - s.p} k={s.k} n={2 ^ s.p} regs={rleNats (HllSpec.regs s.p (sortedSet s.hs)).toList}"
+
+def loadErrName : LoadErr → String
+  | .tooShort => "err NifflerError"
+  | .badMagic => "PANIC"
+  | .badVersion => "PANIC"
+  | .shiftOverflow => "PANIC"
+  | .eof => "err IOError"
+
+def stepC17 (st : St) (ws : List String) : St × Resp :=
+  let slot (w : String) : Nat := w.toNat!
   match ws with
-  | "case" :: _ => (s, { model := "ok" })
-  | _ => (s, { model := "bad-op" })
+  | "case" :: _ => (st, { model := "ok" })
+  | ["new", d, p, k] =>
+    let d := slot d; let p := p.toNat!; let k := k.toNat!
+    let inRange := decide (4 ≤ p ∧ p ≤ 18)
+    let sp : Option SpecSlot := if inRange then some { p := p, k := k, hs := [] } else none
+    match H.new p k with
+    | .ok h => ({ m := st.m.set! d (some h), s := st.s.set! d sp },
+                { model := "ok", spec := if inRange then "ok" else "-" })
+    | .error e => ({ m := st.m.set! d none, s := st.s.set! d sp },
+                   { model := "err " ++ e.name, spec := if inRange then "ok" else "-" })
+  | ["add", d, hs] =>
+    let d := slot d; let hs := natList hs
+    match st.m[d]! with
+    | some h =>
+      let m := st.m.set! d none      -- drop the reference: the register array is updated in place
+      let h := h.addMany hs
+      let s := match st.s[d]! with
+        | some sp => st.s.set! d (some { sp with hs := hs ++ sp.hs })
+        | none => st.s
+      let nz := h.regs.foldl (fun n r => if r == 0 then n else n + 1) 0
+      ({ m := m.set! d (some h), s := s }, { model := s!"nz={nz}" })
+    | none => (st, { model := "none" })
+  | ["show", d] =>
+    let d := slot d
+    match st.m[d]! with
+    | some h => (st, { model := showH h, spec := match st.s[d]! with | some sp => showSpec sp | none => "-" })
+    | none => (st, { model := "none" })
+  | ["eq", a, b] =>
+    let a := slot a; let b := slot b
+    match st.m[a]!, st.m[b]! with
+    | some x, some y =>
+      let spec := match st.s[a]!, st.s[b]! with
+        | some sa, some sb =>
+          if sa.p == sb.p && sa.k == sb.k && sortedSet sa.hs == sortedSet sb.hs then "true" else "-"
+        | _, _ => "-"
+      (st, { model := toString (decide (x = y)), spec := spec })
+    | _, _ => (st, { model := "none" })
+  | [op, d, s] =>
+    if op == "merge" || op == "refused" then
+      let d := slot d; let s := slot s
+      match st.m[d]!, st.m[s]! with
+      | some x, some y =>
+        -- the specification: same p and same k merge, anything else is refused and changes nothing
+        let compat : Option Bool := match st.s[d]!, st.s[s]! with
+          | some sd, some ss => some (sd.p == ss.p && sd.k == ss.k)
+          | _, _ => none
+        let s' := match compat, st.s[d]!, st.s[s]! with
+          | some true, some sd, some ss => st.s.set! d (some { sd with hs := ss.hs ++ sd.hs })
+          | _, _, _ => st.s
+        let specCol := match compat with
+          | some true => if op == "merge" then "ok" else "merged"
+          | some false => if op == "merge" then "-" else "refused unchanged"
+          | none => "-"
+        match x.merge y with
+        | .ok z => ({ m := st.m.set! d (some z), s := s' },
+                    { model := if op == "merge" then "ok" else "merged", spec := specCol })
+        | .error e => ({ st with s := s' },
+                       { model := if op == "merge" then "err " ++ e.name else "refused unchanged", spec := specCol })
+      | _, _ => (st, { model := "none" })
+    else if op == "loadraw" then
+      let d := slot d
+      match load (unhex s) with
+      | .ok h => ({ m := st.m.set! d (some h), s := st.s.set! d none }, { model := "ok" })
+      | .error e => ({ m := st.m.set! d none, s := st.s.set! d none }, { model := loadErrName e })
+    else (st, { model := "bad-op" })
+  | ["loadraw", d] =>
+    let d := slot d
+    ({ m := st.m.set! d none, s := st.s.set! d none }, { model := loadErrName .tooShort })
+  | ["save", d] =>
+    match st.m[slot d]! with
+    | some h =>
+      let b := h.save
+      (st, { model := s!"hdr={hex (b.take 7)} len={b.length} body={rleNats ((b.drop 7).map (·.toNat))}" })
+    | none => (st, { model := "none" })
+  | ["rt", d, s, _kind] =>
+    -- plain / gz / file / ffi: compression and the file system are outside the model; all of them
+    -- must hand `from_reader` the bytes `save_to_writer` produced
+    let d := slot d; let s := slot s
+    match st.m[s]! with
+    | some x =>
+      let specCol := match st.s[s]! with
+        | some sp => showSpec sp ++ " same=true"
+        | none => "-"
+      match load x.save with
+      | .ok y => ({ m := st.m.set! d (some y), s := st.s.set! d st.s[s]! },
+                  { model := showH y ++ " same=" ++ toString (decide (y = x)), spec := specCol })
+      | .error e => ({ m := st.m.set! d none, s := st.s.set! d none },
+                     { model := loadErrName e, spec := specCol })
+    | none => (st, { model := "none" })
+  | _ => (st, { model := "bad-op" })
 
-def main : IO Unit := Driver.run () stepC17
+def main : IO Unit := Driver.run ({} : St) stepC17
